@@ -1209,6 +1209,7 @@ class Interp(object):
     join_on_top = False
     uf_fallback = False
     call_hook = None
+    call_hooks = ()
     memo_pure = False
     _memo = {}
 
@@ -1312,8 +1313,8 @@ class Interp(object):
                     if first_ty["k"] != "ref" and isinstance(args[0], Ptr):
                         args[0] = self.read_ptr(st, args[0])
                 return self.call_closure(body, args, st, fr, pc)
-            if self.call_hook is not None:
-                hooked = self.call_hook(self, body, args, st, pc)
+            for hk in ([self.call_hook] if self.call_hook is not None else []) + list(self.call_hooks):
+                hooked = hk(self, body, args, st, pc)
                 if hooked is not None:
                     return hooked
             if self.memo_pure and args and all(isinstance(x, W) and x.val is not None for x in args):
